@@ -298,7 +298,9 @@ class VarzAggregator(object):
 
     agg = defaultdict(dict)
     now = LOW_RESOLUTION_TIME_SOURCE.now
-    for metric in varz.keys():
+    # Aggregation yields between metrics; a metric recorded for the first time
+    # meanwhile must not invalidate the iteration.
+    for metric in list(varz.keys()):
       if metric not in metrics:
         continue
       varz_type = metrics[metric]
